@@ -11,3 +11,4 @@ CONSTANTS
   Bug = "none"
 INVARIANTS ExactlyOnce FifoLinearizable PerProducerOrder CapacityBound NoTornSlot
 
+CHECK_DEADLOCK FALSE
